@@ -291,9 +291,54 @@ def fresh(key, k):
     return {"status": st, "dump": repr(d)}
 
 
+VLE_PLANS = {1: ["H2O_iPOH", "MeOH_Toluene", "MeOH_DMC"], 5: ["H2O_MeOH", "EtOH_ETBE", "H2O_AceticAcid"], 9: ["H2O_iPOH", "MeOH_MTBE", "MeOH_Toluene"],
+             13: ["H2O_MeOH", "MeOH_DMC", "MeOH_Toluene"]}
+
+
+def vle_fit(name):
+    """default-method UNIQUAC fit of one bundled VLE data set -> deep dump of the parameters"""
+    from pyvaporation.mixtures import VLEPoints, fit_vle
+
+    data = VLEPoints.from_csv(bootstrap.repo_root() / "tests" / "VLE_data" / "binary" / f"{name}.csv")
+    p = fit_vle(data)
+    return fingerprint.deep([float(v) for v in (p.alpha_12, p.alpha_21, p.beta_12, p.beta_21, p.z)])
+
+
+def vle_history(rep, spec):
+    """fits are modelling calls as well: a history of default-method VLE fits (a large data set first, smaller ones after it) -
+    every result must equal that of the same fit made first in a fresh interpreter"""
+    names = VLE_PLANS.get(spec["shard"])
+    if not names:
+        return
+    case = {"index": "vle-history", "shard": spec["shard"], "history": names}
+    rep.case(case, cls="history|vle-fits")
+    for k, name in enumerate(names):
+        try:
+            mine = repr(vle_fit(name))
+        except Exception as e:
+            mine = "raised " + type(e).__name__
+        rep.count("op_fit_vle")
+        env = bootstrap.worker_env()
+        try:
+            cp = subprocess.run([bootstrap.PYTHON, "-m", "pvmon.monitors.c20", "fresh-vle", name, "0"], env=env, cwd=str(bootstrap.VERIF),
+                                capture_output=True, text=True, timeout=1200)
+            out = json.loads(cp.stdout.strip().splitlines()[-1])["dump"]
+        except Exception as e:
+            rep.mark_inconclusive(f"fresh interpreter VLE fit failed: {e!r}")
+            continue
+        rep.count("fresh_interpreter_runs")
+        rep.require("result of a call in a history = result of the same call made first in a fresh interpreter (bitwise)", mine == out, dict(case, call=k, data_set=name),
+                    {"in_history": mine[:300], "fresh": out[:300], "preceding_calls": ["fit_vle(" + n + ")" for n in names[:k]]})
+
+
 def run_shard(spec, rep):
     only = spec.get("only")
     base_builtins = builtins_fingerprint()
+    if only is None or only == "vle-history":
+        try:
+            vle_history(rep, spec)
+        except Exception as e:
+            rep.harness_error(f"C20 vle history: {e!r}", e)
     for index in range(spec["n"]):
         if only is not None and index != only:
             continue
@@ -314,7 +359,13 @@ def one_history(rep, spec, index, key, tmp, base_builtins):
     rep.case(case, nontrivial=len(ops) >= 2, cls=f"history|len={len(ops)}")
     before = {k: fingerprint.deep(v) for k, v in w.shared().items()}
     results = []
+    # a second, unrelated set of objects is used in between (another study in the same session): what it does must not
+    # show in the answers for the first one (they are compared with a fresh interpreter that never saw the second set)
+    other, other_ops = World(key + ":other"), history_ops(key + ":other")
     for k, o in enumerate(ops):
+        if k % 2 == 1:
+            st_o, _ = run_op(other, other_ops[k % len(other_ops)], tmp)
+            rep.count("calls_on_unrelated_objects_in_between_" + st_o)
         st, d = run_op(w, o, tmp)
         results.append((st, repr(d)))
         rep.count("calls_" + st)
@@ -413,3 +464,9 @@ if __name__ == "__main__" and len(sys.argv) >= 4 and sys.argv[1] == "fresh":
     bootstrap.import_repo()
     guards.install_budget()
     print(json.dumps(fresh(sys.argv[2], int(sys.argv[3]))))
+if __name__ == "__main__" and len(sys.argv) >= 4 and sys.argv[1] == "fresh-vle":
+    bootstrap.import_repo()
+    try:
+        print(json.dumps({"dump": repr(vle_fit(sys.argv[2]))}))
+    except Exception as e:
+        print(json.dumps({"dump": "raised " + type(e).__name__}))
